@@ -101,7 +101,7 @@ def _cfg_for(name):
         out = []
         for n in ([3] if tier == "quick" else [3, 4]):
             for b in [1, 2, 3]:
-                if getattr(a, "slow", False) and (n > 3 or tier == "quick" and b > 1):
+                if getattr(a, "slow", False) and (n > 3 or tier == "quick" and b > 2):
                     continue
                 out.append(dict(strat=name, n=n, b=b))
         return out
